@@ -560,7 +560,11 @@ func runC15(c *c15Case, idx int) (impl, pred string) {
 	base := filepath.Join(work, fmt.Sprintf("c15-%d-%d", os.Getpid(), idx))
 	os.MkdirAll(base, 0o755)
 	defer os.RemoveAll(base)
+	// (the order of the allowed list must not matter to a reattaching client: the protocol it does NOT use comes first)
 	allowed := []plugin.Protocol{plugin.ProtocolNetRPC, plugin.ProtocolGRPC}
+	if c.proto == "netrpc" {
+		allowed = []plugin.Protocol{plugin.ProtocolGRPC, plugin.ProtocolNetRPC}
+	}
 	hostSets := kitHostSets(map[int]string{3: c.proto}, nil, nil)
 	pred = "ok"
 	var rc *plugin.ReattachConfig
